@@ -192,7 +192,8 @@ class DictArray(StorageBase):
             return
         path = self._path()
         path.parent.mkdir(parents=True, exist_ok=True)
-        dump(self._dict, path)
+        # `self._dict` can be a `multiprocessing` DictProxy: persist its contents, not the proxy
+        dump(dict(self._dict), path)
 
     def load(self) -> None:
         """Load the dict storage from disk."""
